@@ -211,11 +211,16 @@ static void dispatch(const IntpC &c, vf::Obs &o) {
   with_order<4>((size_t)std::min<i64>(std::max<i64>(c.order, 1), 5) - 1, [&](auto O) { interp_T<T, decltype(O)::value + 1>(c, o); });
 }
 void intp_q(const IntpC &c, vf::Obs &o);
+void intp_q_high(const IntpC &c, vf::Obs &o);
 void intp_d(const IntpC &c, vf::Obs &o);
 void intp_ld(const IntpC &c, vf::Obs &o);
 double ratio_d(); double ratio_ld();
 #if PART(0)
 void intp_q(const IntpC &c, vf::Obs &o) { dispatch<Q>(c, o); }
+#endif
+#if PART(3)
+// orders 21 and 22: the derivative-row prefactors i!/(i-d)! exceed 2^64 there
+void intp_q_high(const IntpC &c, vf::Obs &o) { if (c.order % 2) interp_T<Q, 21>(c, o); else interp_T<Q, 22>(c, o); }
 #endif
 #if PART(1)
 void intp_d(const IntpC &c, vf::Obs &o) { dispatch<double>(c, o); }
@@ -250,6 +255,19 @@ static rc::Gen<IntpC> gen_case(bool exact_only) {
 int main(int argc, char **argv) {
   vf::add_sub<IntpC>("exact-solver", 1500, gen_case(true), check_interp);
   vf::add_sub<IntpC>("eigen-solver", 1500, gen_case(false), check_interp);
+  vf::add_sub<IntpC>("exact-order-21-22", 12, rc::gen::exec([] {
+    IntpC c;
+    c.solver = 0;
+    GridOpt go; go.max_abs = 4; go.min_n = 3; go.max_n = 4; go.max_gap_ratio = 3;
+    c.g = gen_grid(go);
+    c.ws = 0; c.we = (i64)c.g.n();
+    c.order = pick(21, 22);
+    c.use_default = chance(50);
+    c.yden = 1;
+    for (i64 i = 0; i < c.we; i++) c.y.push_back(pick(-3, 3));
+    for (i64 i = 0; i + 1 < c.order; i++) { c.bnode.push_back(i % 2); c.bder.push_back(1 + i / 2 + (i % 2 == 0 && i / 2 + 12 <= c.order ? 0 : 0)); c.bval.push_back(pick(-2, 2)); }
+    return c;
+  }), intp_q_high);
   int rc = vf::main_impl(argc, argv, "C12");
   fprintf(stderr, "max residual ratio: double %.3g long double %.3g (bound 1024)\n", ratio_d(), ratio_ld());
   return rc;
